@@ -323,27 +323,65 @@ def _t_verb(line, arg=None):
     return re.sub(r'\bprefs\.verbosity\b', 'ol_verbosity(prefs)', line)
 
 
-TRANSFORMERS = [('Rverb', _t_verb), ('Rvec', _t_rvec), ('Rone', _t_one_shl), ('Rdiv', _t_opassign), ('R10', _t_r10), ('Rit', _t_forit), ('Rfor', _t_forname), ('R8', _t_r8), ('Rsort', _t_sort), ('R7', _t_r7), ('R1', _t_r1), ('R1u', _t_unsafe), ('ret', _t_ret), ('brace', _t_brace)]
+RREF_RE = re.compile(r'^(\s*)for &(\w+) in &([\w:]+) \{\s*$')
+RREF_OUT = re.compile(r'^for verif_r_(\w+) in 0\.\.([\w:]+)\.len\(\)$')
+
+
+def _t_rref(line, arg=None):
+    """Rref: `for &X in &ARR {` -> `for verif_r_X in 0..ARR.len()` (header clauses follow, then `{` and the binding
+    `let X = ARR[verif_r_X];`): reference patterns in `for` are outside the Verus subset"""
+    m = RREF_RE.match(line)
+    if not m:
+        return line
+    ind, x, v = m.groups()
+    return '%sfor verif_r_%s in 0..%s.len()' % (ind, x, v)
+
+
+def _t_try(line, arg=None):
+    """Rtry: `X.try_into() == Ok(C)` -> `ol_uint_eq_u64(X, C)` (bnum's TryFrom has no Verus specification; outlined with
+    the assumed contract `r == (uv(X) == C)`)"""
+    return re.sub(r'\b(\w+)\.try_into\(\) == Ok\(([^()]+)\)', r'ol_uint_eq_u64(\1, \2)', line)
+
+
+TRANSFORMERS = [('Rref', _t_rref), ('Rtry', _t_try), ('Rverb', _t_verb), ('Rvec', _t_rvec), ('Rone', _t_one_shl), ('Rdiv', _t_opassign), ('R10', _t_r10), ('Rit', _t_forit), ('Rfor', _t_forname), ('R8', _t_r8), ('Rsort', _t_sort), ('R7', _t_r7), ('R1', _t_r1), ('R1u', _t_unsafe), ('ret', _t_ret), ('brace', _t_brace)]
+
+
+_INFER_CACHE = {}
 
 
 def infer_transform(pinned_line, ann_line):
     """Find a subset of TRANSFORMERS mapping pinned_line to ann_line (modulo surrounding whitespace)."""
+    ck = (pinned_line, ann_line)
+    if ck in _INFER_CACHE:
+        return _INFER_CACHE[ck]
     target = ann_line.strip()
     arg = None
     m = re.search(r'->\s*\((\w+)\s*:', ann_line)
     if m:
         arg = m.group(1)
-    n = len(TRANSFORMERS)
-    for maskbits in range(1 << n):
-        s = pinned_line
-        used = []
-        for k, (nm, fn) in enumerate(TRANSFORMERS):
-            if maskbits >> k & 1:
-                s = fn(s, arg)
-                used.append(nm)
-        if s.strip() == target:
-            return used, arg
-    return None, None
+
+    def search(idxs):
+        n = len(idxs)
+        for maskbits in range(1 << n):
+            s = pinned_line
+            used = []
+            for k, ti in enumerate(idxs):
+                if maskbits >> k & 1:
+                    nm, fn = TRANSFORMERS[ti]
+                    s = fn(s, arg)
+                    used.append(nm)
+            if s.strip() == target:
+                return used
+        return None
+
+    # transformers that do something on the line itself first (the common case), then every subset
+    app = [i for i, (nm, fn) in enumerate(TRANSFORMERS) if fn(pinned_line, arg) != pinned_line]
+    used = search(app)
+    if used is None and len(app) < len(TRANSFORMERS):
+        used = search(list(range(len(TRANSFORMERS))))
+    res = (used, arg) if used is not None else (None, None)
+    _INFER_CACHE[ck] = res
+    return res
 
 
 def apply_transform(line, used, arg):
@@ -361,6 +399,7 @@ def key(line):
         return '<<brace>>'
     s = re.sub(r'ol_uint_one_shl\(([^()]*)\)', r'Uint::ONE << (\1)', s)
     s = s.replace('ol_verbosity(prefs)', 'prefs.verbosity')
+    s = re.sub(r'ol_uint_eq_u64\((\w+), ([^()]+)\)', r'\1.try_into() == Ok(\2)', s)
     md = re.match(r'^(\w+) = (\w+) / (.+);$', s)
     if md and md.group(1) == md.group(2):
         return '%s /= %s;' % (md.group(1), md.group(3))
@@ -381,6 +420,9 @@ def key(line):
     m = RVEC_OUT.match(s)
     if m:
         return 'for %s in %s' % (m.group(1), m.group(2))
+    m = RREF_OUT.match(s)
+    if m:
+        return 'for &%s in &%s' % (m.group(1), m.group(2))
     s = _sub_get_unchecked(s)
     s = re.sub(r'\bunsafe\s*\{', '{', s)
     if s == '{':
@@ -549,7 +591,7 @@ class Script:
                         if all(norm(x) == '' or norm(x).startswith('//') for x in P[bi1:bi2]) and not js:
                             continue
                         raise Undecided("a rewritten block changed near %r" % P[pi].strip())
-                    if pi in self.transform and ('brace' in self.transform[pi][0] or 'R7' in self.transform[pi][0] or 'Rvec' in self.transform[pi][0]):
+                    if pi in self.transform and ('brace' in self.transform[pi][0] or 'R7' in self.transform[pi][0] or 'Rvec' in self.transform[pi][0] or 'Rref' in self.transform[pi][0]):
                         # the annotated loop / fn header no longer exists in this form: its clauses are orphaned.
                         # They are dropped (a loop that is gone has no invariant); what the changed code must
                         # still satisfy is decided by the remaining obligations.
@@ -613,8 +655,8 @@ def make_canary(ann_text, name):
         lines[end] = lines[end].rstrip()[:-1].rstrip()
         lines.insert(end + 1, '    ensures false,')
         lines.insert(end + 2, '{')
-    # strip attributes that cannot be duplicated harmlessly (none so far); drop doc comments
-    lines = [l for l in lines if not l.strip().startswith('///')]
+    # drop doc comments; a raised rlimit only makes the (expected) failure of the twin slower
+    lines = [l for l in lines if not l.strip().startswith('///') and not re.match(r'\s*#\[verifier::rlimit\(', l)]
     return '\n'.join(lines)
 
 
